@@ -25,8 +25,28 @@ def gen_call_case(ctx, rng, wrong_kind_p=0.0, nevents=NEVENTS, only=None, litera
         for i, (_, _, form) in enumerate(call.used):
             if form == "lit":
                 r[i] = rows[0][i]
+    tight = typed and rng.random() < 0.5
+    if tight:
+        # homogeneous collections (half of the tight slots): keep only the elements of one value kind in
+        # every row, so that the declared element kind is narrow and whatever else the function puts
+        # into its result (appended / pushed / merged items, defaults) falls outside it unless typed
+        for i, (_, kind, form) in enumerate(call.used):
+            if form != "event" or kind not in ("array", "object") or rng.random() < 0.4:
+                continue
+            tags = sorted({tag(e) for r in rows if tag(r[i]) == kind
+                           for e in (r[i] if kind == "array" else r[i].values())})
+            if not tags:
+                continue
+            keep = rng.choice(tags)
+            for r in rows:
+                if tag(r[i]) != kind:
+                    continue
+                if kind == "array":
+                    r[i] = [e for e in r[i] if tag(e) == keep]
+                else:
+                    r[i] = {k: e for k, e in r[i].items() if tag(e) == keep}
     return {"fn": f["id"], "used": [[p["keyword"], kind, form] for p, kind, form in call.used],
-            "closure": call.closure, "typed": typed, "tight": typed and rng.random() < 0.4,
+            "closure": call.closure, "typed": typed, "tight": tight,
             "rows": [[enc(v) for v in r] for r in rows]}
 
 
